@@ -13,6 +13,10 @@ func (t *tree) Insert(ctx context.Context, key, value []byte) error {
 	if value == nil {
 		value = []byte{}
 	}
+	if key == nil {
+		// A nil key is the empty key (node.Key.Equal distinguishes the two).
+		key = []byte{}
+	}
 	if len(key) > maxKeySize {
 		return ErrKeyTooLarge
 	}
